@@ -51,9 +51,12 @@ Advance(shape, th) ==
          THEN [th EXCEPT !.stk = <<Frame(th.next, "rm")>>, !.next = th.next + 1]
          ELSE Advance(shape, [th EXCEPT !.forms = Append(@, "inline"), !.next = th.next + 1])
 
+\* op "par": a reader that only iterates, searches and queries (also through the parallel adaptors); it touches no
+\* shared mutable state, so it takes no step of the model; what it saw is compared with what it sees alone (see below)
 InitThread(shape, op) ==
     LET th0 == [stk |-> <<>>, forms |-> <<>>, tags |-> <<>>, fin |-> FALSE, next |-> 1, op |-> op.op]
     IN IF op.op = "store" THEN Advance(shape, th0)
+       ELSE IF op.op = "par" THEN [th0 EXCEPT !.fin = TRUE, !.forms = <<"par">>]
        ELSE [th0 EXCEPT !.stk = <<Frame(op.i, "W1")>>]
 
 Top(th) == th.stk[Len(th.stk)]
@@ -119,7 +122,9 @@ SequentialResults(shape, ops, final) ==
 ConcExpected(a) ==
     LET f == RunSchedule(a.shape, a.ops, a.schedule) IN [t \in DOMAIN a.ops |-> Observed(f.ths[t])]
 ConcFilesExpected(a) == LET f == RunSchedule(a.shape, a.ops, a.schedule) IN FilesExpected(a.shape, f.g)
-ConcConforms(r) == r.outcome = "ok" /\ r.api.threads = ConcExpected(r.a) /\ r.api.files = ConcFilesExpected(r.a) /\ r.api.leftovers = <<>>
+\* (the digest a "par" reader logs must be the digest the same reader logged running alone before the threads started)
+WithAlone(exp, r) == [t \in DOMAIN exp |-> IF r.a.ops[t].op = "par" THEN [exp[t] EXCEPT !.forms = <<r.api.alone[t]>>] ELSE exp[t]]
+ConcConforms(r) == r.outcome = "ok" /\ r.api.threads = WithAlone(ConcExpected(r.a), r) /\ r.api.files = ConcFilesExpected(r.a) /\ r.api.leftovers = <<>>
 ConcSequential(r) == SequentialResults(r.a.shape, r.a.ops, RunSchedule(r.a.shape, r.a.ops, r.a.schedule))
 
 ----------------------------------------------------------------------------
@@ -138,8 +143,9 @@ FreeFinals(a, api) ==
     IN {s \in FreeReach(a.shape, api.threads, {init}, {init}) :
           \* (file operations of free-running threads are not atomic with the accesses to the shared cells: the files are
           \*  not matched against one interleaving; FreeSequential below states what they must be)
-          \A t \in DOMAIN a.ops : s.ths[t].fin /\ Observed(s.ths[t]) = api.threads[t]}
+          \A t \in DOMAIN a.ops : s.ths[t].fin /\ (IF a.ops[t].op = "par" THEN api.threads[t] = [tags |-> <<>>, forms |-> <<api.alone[t]>>]
+                                                     ELSE Observed(s.ths[t]) = api.threads[t])}
 FreeConforms(r) == r.outcome = "ok" /\ Len(r.api.threads) = Len(r.a.ops) /\ r.api.leftovers = <<>> /\ FreeFinals(r.a, r.api) # {}
-FreeSequential(r) == /\ \A t \in DOMAIN r.a.ops : r.api.threads[t].forms = Alone(r.a.shape, r.a.ops[t]).forms
+FreeSequential(r) == /\ \A t \in DOMAIN r.a.ops : r.a.ops[t].op = "par" \/ r.api.threads[t].forms = Alone(r.a.shape, r.a.ops[t]).forms
                      /\ r.api.files = FilesExpected(r.a.shape, RunSequential(r.a.shape, r.a.ops))
 =============================================================================
